@@ -1077,12 +1077,15 @@ func (ds *AnySource) ChangeGroupTrigger(turnon bool, gts *GroupTriggerState) err
 	if turnon {
 		changer = ds.broker.AddConnection
 	}
+	var firstErr error
 	for source, receivers := range gts.Connections {
 		for _, receiver := range receivers {
-			changer(source, receiver)
+			if err := changer(source, receiver); err != nil && firstErr == nil {
+				firstErr = err
+			}
 		}
 	}
-	return nil
+	return firstErr
 }
 
 // StopTriggerCoupling turns off all trigger coupling, including all group triggers and FB/Err coupling.
